@@ -71,11 +71,11 @@ def shapes():
 
 def tasks(tier, seed):
     ts = []
-    for si, sh in enumerate(shapes()):
+    from .. import shapes as _shapes
+    allshapes = shapes() + _shapes.random_family(71 + seed, 6 if tier == 'quick' else 60, need_a=False, allow_trunc=True)
+    for si, sh in enumerate(allshapes):
         enc = s1.build(sh)
-        for path in (A, B, C):
-            if path not in enc.channels:
-                continue
+        for path in sorted(enc.channels):
             has_ts = enc.channels[path].tcode == 0x44
             for mode in ('eager', 'lazy'):
                 for raw_ts in ((False, True) if has_ts else (False,)):
